@@ -17,7 +17,7 @@ use jrsonnet_evaluator::{
 	AsPathLike, ImportResolver, ResolvePath,
 };
 use jrsonnet_gcmodule::Acyclic;
-use jrsonnet_ir::{SourceDirectory, SourceFile, SourcePath};
+use jrsonnet_ir::{SourceDirectory, SourceFifo, SourceFile, SourcePath};
 
 use crate::VM;
 
@@ -101,7 +101,16 @@ impl ImportResolver for CallbackImportResolver {
 		Ok(found_here_buf)
 	}
 	fn load_file_contents(&self, resolved: &SourcePath) -> Result<Vec<u8>> {
-		Ok(self.out.borrow().get(resolved).unwrap().clone())
+		// Inline code (ext code, top level arguments) carries its text in the path and never goes
+		// through the callback
+		if let Some(f) = resolved.downcast_ref::<SourceFifo>() {
+			return Ok(f.1.to_vec());
+		}
+		self.out
+			.borrow()
+			.get(resolved)
+			.cloned()
+			.ok_or_else(|| ResolvedFileNotFound(resolved.clone()).into())
 	}
 }
 
